@@ -39,3 +39,19 @@ Definition check_case (tol : float) (c : Case) : bool :=
     let g := generated_arg float interpf (t_call c) (t_base c) (t_assigns c) (envl (t_rho c)) (fun _ => nan) p in
     closeb tol 0x1p-1000%float (PrimFloat.add (PrimFloat.abs v) 1%float) g v) (t_expect c).
 Definition check_cases (tol : float) (l : list Case) : list nat := failing (map (check_case tol) l).
+
+(* ---- modelinfo._insert_after on parameter names ---- *)
+From SM Require Import C16.InsertAfter.
+Definition IACase := (list string * list string * list string * list (string * list string) * option (list string))%type.
+Fixpoint glookup (k : string) (g : list (string * list string)) : list string :=
+  match g with [] => [] | (k', v) :: r => if String.eqb k' k then v else glookup k r end.
+Fixpoint strs_eqb (a b : list string) : bool :=
+  match a, b with [], [] => true | x :: a', y :: b' => String.eqb x y && strs_eqb a' b' | _, _ => false end.
+Definition check_ia (c : IACase) : bool :=
+  let '(pars, ins, remove, groups, expect) := c in
+  match insert_after string (fun s => s) remove (fun k => glookup k groups) pars ins, expect with
+  | Some l, Some e => strs_eqb l e
+  | None, None => true
+  | _, _ => false
+  end.
+Definition check_ias (l : list IACase) : list nat := failing (map check_ia l).
